@@ -50,12 +50,24 @@ static void add_taint(char id)
 	atomic_fetch_or(&kernel.taint_flags, 1 << id);
 }
 
+/* Append f to the run queue unless it is already there. Unlike fibre_run()
+ * this does not look at the atomic run queue first, so it can be used while
+ * that queue is being drained without disturbing the order of arrival.
+ */
+static void make_runnable(fibre_t *f)
+{
+	if (!list_contains(&kernel.runq, &f->link, NULL)) {
+		(void) list_remove(&kernel.timerq, &f->link);
+		list_insert(&kernel.runq, &f->link);
+	}
+}
+
 static void handle_atomic_runq(void)
 {
 	fibre_t **f;
 
 	while (NULL != (f = messageq_receive(&kernel.atomic_runq))) {
-		fibre_run(*f);
+		make_runnable(*f);
 		messageq_release(&kernel.atomic_runq, f);
 	}
 }
@@ -176,11 +188,7 @@ void fibre_init(fibre_t *f, fibre_entrypoint_t *fn)
 void fibre_run(fibre_t *f)
 {
 	handle_atomic_runq();
-
-	if (!list_contains(&kernel.runq, &f->link, NULL)) {
-		(void) list_remove(&kernel.timerq, &f->link);
-		list_insert(&kernel.runq, &f->link);
-	}
+	make_runnable(f);
 }
 
 bool fibre_run_atomic(fibre_t *f)
